@@ -3,7 +3,7 @@
    processBlock/deleteBlock batches, block cache). *)
 From Coq Require Import List NArith ZArith Bool.
 From LE Require Import Base.Lex Store.SMap Store.PebbleIter Store.PebbleIterProofs Store.DiffDB Store.DiffDBProofs
-  Store.DiffDBSpec Store.DiffDBRefine Store.Diff Chain.BlockStore Chain.BlockStoreProofs.
+  Store.DiffDBSpec Store.DiffDBRefine Store.Diff Chain.BlockStore Chain.BlockStoreProofs Chain.U32.
 Import ListNotations.
 Local Open Scope N_scope.
 
@@ -61,6 +61,15 @@ Theorem C05_delete_inverts_apply : forall db c diff_enc prune b events fh rt kee
   lookup (apply_writes (delete_batch (diff_of c) b st)
            (apply_writes (apply_batch db c diff_enc prune b events fh rt keep) db)) k = lookup db k.
 Proof. exact delete_inverts_apply. Qed.
+
+(* reading of the exceptions for 4-byte height keys: the pruned event records are those of heights <= the bound,
+   the pruned diff records those of heights < the bound *)
+Theorem C05_exception_events_heights : forall h m, h < 4294967296 -> m < 4294967296 ->
+  leb (kEvents 0) (kEvents h) && leb (kEvents h) (kEvents m) = (h <=? m).
+Proof. exact events_range_heights. Qed.
+
+Theorem C05_exception_diff_heights : forall h, h < 4294967296 -> u32_of (tl (kDiff h)) = h.
+Proof. exact diff_key_height. Qed.
 
 (* removed blocks are kept retrievable as temporary blocks when requested *)
 Theorem C05_temp_block_saved : forall db b, sorted db ->
